@@ -447,6 +447,12 @@ func (javaTarget) RunCells(e *Env, cells []*Cell) {
 		so, se, err := runSegments(c, func(in []byte) ([]byte, []byte, error) {
 			return javaRunCapped(jc.dir, javaRunTimeout, in, javaMaxStdout, "java", javaCmd(rt, jc.classes, "verif.Driver", jc.pkg)...)
 		})
+		if err != nil && len(so) == 0 && (bytes.Contains(se, []byte("loading main class verif.Driver")) || bytes.Contains(se, []byte("load main class verif.Driver"))) {
+			// the JVM could not load the harness's own driver class (a truncated class file on a loaded machine):
+			// a fault of the harness run, never a verdict about the emitted code, and never cached
+			c.Stage, c.BuildLog = "driver", "harness run: the driver class could not be loaded: "+trunc(se, 400)
+			return
+		}
 		if err != nil && len(so) == 0 {
 			c.Stage, c.BuildLog = "run", fmt.Sprintf("%v\n%s", err, trunc(se, 4000))
 			if !strings.Contains(err.Error(), "timeout") {
